@@ -12,7 +12,7 @@
 (* TLC enumerates (as initial states, one per case family):                 *)
 (*   "cut"  every message sequence (every single message; every sequence    *)
 (*          of 2..MaxFrames representatives of one codec) together with     *)
-(*          every set of at most Cuts(n) cut points of its byte stream      *)
+(*          every set of at most Cuts* cut points of its byte stream        *)
 (*          (a cut set {a, b} = pieces a, b - a, rest) - every single       *)
 (*          split point and every pair of split points, exhaustively;       *)
 (*   "bad"  every (prefix of 0..1 representative frames, frame, field,      *)
@@ -24,8 +24,9 @@
 EXTENDS Naturals, Sequences, FiniteSets, TLC, Json, FramingData
 
 CONSTANTS MaxFrames,     \* longest sequence
-          CutsSingle,    \* number of simultaneous cut points explored for single messages (1 or 2)
-          CutsSeq        \* ... for sequences of several messages
+          CutsSingle,    \* number of simultaneous cut points enumerated for single messages (1 or 2)
+          CutsPair,      \* ... for sequences of two messages
+          CutsLonger     \* ... for longer sequences
 
 VARIABLE case
 
@@ -41,7 +42,7 @@ CutSets(L, k) == {{}} \cup {{a} : a \in 1..(L - 1)}
 
 CutCases ==
     {[kind |-> "cut", seq |-> <<i>>, cuts |-> CutSets(GenFrames[i].len, CutsSingle)] : i \in 1..Len(GenFrames)}
-    \cup UNION {{[kind |-> "cut", seq |-> s, cuts |-> CutSets(SeqLen(s, n), CutsSeq)] : s \in [1..n -> Reps(c)]} :
+    \cup UNION {{[kind |-> "cut", seq |-> s, cuts |-> CutSets(SeqLen(s, n), IF n = 2 THEN CutsPair ELSE CutsLonger)] : s \in [1..n -> Reps(c)]} :
                   n \in 2..MaxFrames, c \in Codecs}
 
 \* the frame i with field f set to its v-th boundary value, after the prefix p
